@@ -16,6 +16,15 @@ raised only where every reading of the statement agrees:
     under-accept  model MUST_PASS, tdda fails
     internal-error  anything but a pass or an assertion failure
 
+Third round: the FORM of the arguments is a dimension of its own - lists and
+tuples of lines (layer "tuples", and both in "reuse"), the same argument
+OBJECT handed to several checks (layer "reuse": verdict equal to that of fresh
+equal objects, caller's sequences left as given), the names of the files and
+the encoding= / encodings= keywords (layer "names": one codec per comparison,
+the model speaks only where UTF-8 and ISO-8859-1 agree when none is given),
+and the documented alias spellings ignore_lines= / assertFileCorrect /
+assertFilesCorrect (layer "entry").
+
 Signatures: a violating (pair, option point) is first reduced to the option
 points that are minimal inside the pair's sweep, then shrunk (lines dropped,
 options reset while the same kind of violation persists, re-running model and
@@ -125,8 +134,21 @@ class C04(Check):
             'x {string-vs-file, file-vs-file, '
             'list-of-files in both orders}, and file forms (final newline '
             'present/absent/doubled, CRLF, CR, non-ASCII, empty, missing '
-            'reference).  Non-trivial = the model gives both must-pass and '
-            'must-fail inside the case\'s option sweep.')
+            'reference).  Argument forms: the identical and single-line '
+            'sweeps again with tuples; reuse cases = pairs of 7 base '
+            'sequences x 0..3 trailing empty lines, each under 8 option '
+            'points x {list, tuple}^2: one fresh check, then four checks on '
+            'shared objects (both shared, reference shared, actual shared, '
+            'both again; one object on both sides when equal), and the '
+            'string entry point three times with the same list / tuple; name '
+            'cases = pairs of sequences of <= 2 lines over {a, e-acute, its '
+            'UTF-8-read-as-Latin-1 image}, the same bytes under 5 x 5 file '
+            'names x encoding keyword in {absent, utf-8, iso-8859-1, UTF8} x '
+            '4 option points through the file, list-of-files and string '
+            'assertions.  Non-trivial = the model gives both must-pass and '
+            'must-fail inside the case\'s option sweep (reuse: a sequence '
+            'ends in an empty line; names: non-ASCII content with a '
+            'definite verdict).')
     assumptions = [
         'gray zones answered "unspecified" (never alarmed): pairs between '
         'the strict (token-equivalent) and the weakest (delete-what-matches) '
@@ -137,7 +159,13 @@ class C04(Check):
         'anchored at one end, matching the empty string or using context '
         'assertions; ignore/remove substrings with outer blanks under strip',
         'lines contain no line terminators other than \\n, \\r\\n, \\r; '
-        'files are UTF-8',
+        'files are UTF-8 (layer names: UTF-8 or ISO-8859-1 bytes; a '
+        'comparison decodes both files with ONE codec - the encoding given, '
+        'else a guess the statement does not fix: the model evaluates UTF-8 '
+        'and ISO-8859-1 and is silent where they disagree or cannot decode)',
+        'a list / tuple actual handed to the string entry point is the line '
+        'sequence itself (trailing-empty readings of check_strings), the '
+        'reference file a text (both final-terminator readings)',
         'alphabet bound: 9 lines (32 for single-line pairs), sequences of '
         'length <= 2 (quick) / <= 3 (thorough), one value per option besides '
         'its default except 3 patterns and 3 permutation limits',
@@ -160,7 +188,18 @@ class C04(Check):
                           '3-line alphabets: every actual sequence against '
                           'every reference (multisets for length 5) x 48 '
                           'option points (limit 0..5 x <= 1 other option)'),
+             ('tuples', 'the identical and single-line sweeps with both '
+                        'sequences given as tuples'),
+             ('reuse', 'E3: the SAME list / tuple objects handed to several '
+                       'checks (both shared, one shared + one fresh, one '
+                       'object on both sides); sequences ending in 0..3 empty '
+                       'lines; verdict equals that of fresh equal objects '
+                       'and the caller\'s sequences are left as they were'),
              ('entry', 'public entry points on real files'),
+             ('names', 'file names x encoding keyword: 5 actual x 5 '
+                       'reference names (.txt, .pdf, none, upper case, inner '
+                       '.pdf) x encoding=/encodings= in {absent, utf-8, '
+                       'iso-8859-1, UTF8} on non-ASCII content'),
              ('multiset-entry', 'length-3 (thorough: 4) sequences with '
                                 'repeats through the entry points'),
              ('perm-entry', 'the permutation space through the entry points'),
@@ -191,6 +230,26 @@ class C04(Check):
                 for e in TA.sequences(TA.LAMBDA, 2):
                     if a != e:
                         yield {'k': 'sweep', 'a': a, 'e': e}
+        elif layer == 'tuples':
+            for s in TA.sequences(TA.LAMBDA, n):
+                yield {'k': 'sweep', 'a': s, 'e': s, 'form': 'tuple'}
+            for a in TA.LAMBDA_X:
+                for e in TA.LAMBDA_X:
+                    if a != e:
+                        yield {'k': 'sweep', 'a': [a], 'e': [e],
+                               'form': 'tuple'}
+        elif layer == 'reuse':
+            for a in TA.reuse_sequences():
+                for e in TA.reuse_sequences():
+                    yield {'k': 'reuse', 'a': a, 'e': e}
+        elif layer == 'names':
+            seqs = list(TA.sequences(TA.NAME_LINES, 2))
+            for a in seqs:
+                for e in seqs:
+                    yield {'k': 'names', 'a': a, 'e': e, 'w': 'utf-8'}
+                    if any(ord(c) > 127 for c in ''.join(a + e)):
+                        yield {'k': 'names', 'a': a, 'e': e,
+                               'w': 'iso-8859-1'}
         elif layer == 'perm':
             for a, e in TA.permutation_pairs():
                 yield {'k': 'sweep', 'a': a, 'e': e, 'pts': 'perm'}
@@ -286,11 +345,17 @@ class C04(Check):
             self.box = None
 
     # ------------------------------------------------------- real executions
+    form = 'list'       # container handed to check_strings (per case)
+
     def real_strings(self, a, e, kw):
-        """'pass' | 'fail' | ('error', exc)"""
+        """'pass' | 'fail' | ('error', exc)  - on NEW objects of self.form"""
+        return self.real_objects(TA.as_container(a, self.form),
+                                 TA.as_container(e, self.form), kw)
+
+    def real_objects(self, a, e, kw):
+        """The same on exactly these objects (no copies are made)."""
         try:
-            r = self.fc.check_strings(list(a), list(e),
-                                      create_temporaries=False, **kw)
+            r = self.fc.check_strings(a, e, create_temporaries=False, **kw)
             return 'pass' if r.failures == 0 else 'fail'
         except Exception as ex:
             return ('error', ex)
@@ -364,6 +429,8 @@ class C04(Check):
         else:
             basis = type(real[1]).__name__
         sig = '%s:%s:%s' % (kind, TA.option_label(sp), basis)
+        if self.form != 'list':
+            sig += ':%s-of-lines' % self.form
         return sig, {'actual': sa, 'reference': se,
                      'options': dict((k, v) for k, v in sp.items()
                                      if v != TA.DEFAULT_POINT[k]),
@@ -420,8 +487,19 @@ class C04(Check):
 
     # ------------------------------------------------------------- run_case
     def run_case(self, case):
+        self.form = case.get('form', 'list')
+        try:
+            return self.run_case_(case)
+        finally:
+            self.form = 'list'
+
+    def run_case_(self, case):
         if case['k'] == 'sweep':
             return self.run_sweep(case)
+        if case['k'] == 'reuse':
+            return self.run_reuse(case)
+        if case['k'] == 'names':
+            return self.run_names(case)
         if case['k'] == 'entry':
             return self.run_entry(case)
         if case['k'] == 'long':
@@ -459,6 +537,290 @@ class C04(Check):
         R.nontrivial = TS.MUST_PASS in verdicts and TS.MUST_FAIL in verdicts
         if bad:
             self.report(R, a, e, points, bad, 'check_strings')
+        return R
+
+    # ------------------------------------------------------------- reuse
+    def run_reuse(self, case):
+        """E3 over argument OBJECTS: the same list / tuple handed to several
+        checks.  Clauses: (model) the verdict on fresh objects; (container)
+        the verdict does not depend on list vs tuple; (reuse) every later
+        check that involves an object used before gives the verdict fresh
+        equal objects give; (snapshot) the caller's sequences still hold
+        what they held; no internal error."""
+        R = Res()
+        box = self.box
+        a, e = case['a'], case['e']
+        te = '\n'.join(e)
+        box.clean(box.ref, box.act, box.tmp)
+        ref = os.path.join(box.ref, 'ref.txt')
+        box.write(ref, te)
+        points = FORM_POINTS
+        notes = {}
+        model_bad = {}
+        entry_bad = {}
+        tally = {}
+
+        def note(what, where, i, **detail):
+            notes.setdefault((what, where), (i, detail))
+
+        def tag(x):
+            return x if isinstance(x, str) else 'error'
+
+        def modified(pairs):
+            return [(side, type(obj).__name__)
+                    for side, obj, orig in pairs if list(obj) != orig]
+
+        for i, p in enumerate(points):
+            kw = TA.kwargs_of(p)
+            mo = model_opts(p)
+            m = TS.evaluate(a, e, mo)
+            if m.verdict == TS.UNSPEC:
+                R.unspec += 1
+            base = None
+            for fa in TA.CONTAINERS:
+                for fe in TA.CONTAINERS:
+                    where = '%s/%s' % (fa, fe)
+                    fresh = self.real_objects(TA.as_container(a, fa),
+                                              TA.as_container(e, fe), kw)
+                    R.ev()
+                    fk = tag(fresh)
+                    if fa == 'list' and fe == 'list':
+                        base = fk
+                        kind = self.violation_kind(fresh, m.verdict)
+                        if kind:
+                            model_bad[i] = kind
+                            continue
+                    elif fk == 'error':
+                        note('internal-error:%s:%s' % (
+                            type(fresh[1]).__name__,
+                            'tuple-of-lines'), 'check_strings', i,
+                            containers=where, exception=repr(fresh[1])[:300])
+                        continue
+                    elif base in ('pass', 'fail') and fk != base:
+                        note('verdict-depends-on-container', 'check_strings',
+                             i, containers=where, lists=base, this=fk)
+                    # ---- the history on shared objects
+                    A = TA.as_container(a, fa)
+                    E = TA.as_container(e, fe)
+                    steps = [('both-shared', A, E),
+                             ('reference-shared', TA.as_container(a, fa), E),
+                             ('actual-shared', A, TA.as_container(e, fe)),
+                             ('both-shared-again', A, E)]
+                    trace = []
+                    for (name, x, y) in steps:
+                        r = self.real_objects(x, y, kw)
+                        R.ev()
+                        R.transitions += 1
+                        trace.append('%s:%s' % (name, tag(r)))
+                        mod = modified((('actual', A, a),
+                                        ('reference', E, e)))
+                        if mod:
+                            note('caller-sequence-modified:%s' % '+'.join(
+                                sorted(set(t for (s_, t) in mod))),
+                                'check_strings', i, containers=where,
+                                after=list(trace),
+                                actual_now=list(A), reference_now=list(E))
+                        if tag(r) != fk:
+                            note('verdict-changes-on-reuse:%s' % '+'.join(
+                                sorted(set((fa, fe)))),
+                                'check_strings', i, containers=where,
+                                fresh_objects=fk, history=list(trace))
+                    key = '%s|%s|%s' % (where, fk, m.verdict)
+                    tally[key] = tally.get(key, 0) + 1
+                    # ---- one object on both sides
+                    if a == e and fa == fe:
+                        X = TA.as_container(a, fa)
+                        r = self.real_objects(X, X, kw)
+                        R.ev()
+                        if list(X) != a:
+                            note('caller-sequence-modified:%s' % fa,
+                                 'check_strings', i, containers=where,
+                                 after=['one-object-on-both-sides'],
+                                 actual_now=list(X))
+                        if tag(r) != fk:
+                            note('verdict-changes-on-reuse:%s' % fa,
+                                 'check_strings', i, containers=where,
+                                 fresh_objects=fk,
+                                 history=['one-object-on-both-sides:%s'
+                                          % tag(r)])
+            # ---- the string entry point with the actual given as lines
+            m2 = TS.evaluate_lines_text(a, te, mo)
+            for fa in TA.CONTAINERS:
+                rk0, info0 = box.call('assertStringCorrect',
+                                      TA.as_container(a, fa), ref, **kw)
+                R.ev()
+                if rk0 != 'pass':
+                    box.clean(box.tmp)
+                if rk0 == 'error':
+                    note('internal-error:%s:%s-of-lines' % (
+                        type(info0).__name__, fa), 'assertStringCorrect', i,
+                        exception=repr(info0)[:300])
+                    continue
+                kind = self.violation_kind(rk0, m2.verdict)
+                if kind:
+                    entry_bad.setdefault(fa, {})[i] = kind
+                A = TA.as_container(a, fa)
+                trace = []
+                for step in range(3):
+                    rk, info = box.call('assertStringCorrect', A, ref, **kw)
+                    R.ev()
+                    R.transitions += 1
+                    if rk != 'pass':
+                        box.clean(box.tmp)
+                    trace.append(rk)
+                    if list(A) != a:
+                        note('caller-sequence-modified:%s' % fa,
+                             'assertStringCorrect', i, after=list(trace),
+                             actual_now=list(A))
+                    if rk != rk0:
+                        note('verdict-changes-on-reuse:%s' % fa,
+                             'assertStringCorrect', i, fresh_object=rk0,
+                             history=list(trace))
+                key = 'string-entry:%s|%s|%s' % (fa, rk0, m2.verdict)
+                tally[key] = tally.get(key, 0) + 1
+        for k, n in tally.items():
+            R.out(k, n)
+        R.states = 4
+        R.nontrivial = bool((a and a[-1] == '') or (e and e[-1] == ''))
+        if model_bad:
+            self.report(R, a, e, points, model_bad, 'check_strings')
+        for fa, bad in sorted(entry_bad.items()):
+            i = min(bad)
+            R.viol('%s@assertStringCorrect:%s-of-lines' % (bad[i], fa),
+                   self.CLAUSES[bad[i]],
+                   {'entry': 'assertStringCorrect', 'actual': a,
+                    'container': fa, 'reference_text': te,
+                    'options': dict((k, v) for k, v in points[i].items()
+                                    if v != TA.DEFAULT_POINT[k])},
+                   sub={'point': i, 'entry': 'assertStringCorrect:' + fa})
+        clause = {'caller-sequence-modified': 'arguments-left-as-given',
+                  'verdict-changes-on-reuse': 'verdict-depends-on-content-only',
+                  'verdict-depends-on-container':
+                      'verdict-depends-on-content-only',
+                  'internal-error': 'no-internal-error'}
+        for (what, where) in sorted(notes):
+            i, detail = notes[(what, where)]
+            d = {'entry': where, 'actual': a, 'reference': e,
+                 'options': dict((k, v) for k, v in points[i].items()
+                                 if v != TA.DEFAULT_POINT[k])}
+            d.update(detail)
+            R.viol('%s:%s' % (what, where), clause[what.split(':')[0]], d,
+                   sub={'what': what, 'entry': where})
+        box.clean(box.tmp)
+        return R
+
+    # ------------------------------------------------------------- names
+    @staticmethod
+    def codec_verdict(actual, expected, codecs, mo):
+        """actual / expected: bytes (decoded with each candidate codec) or
+        str.  One codec per comparison; which one is open when no encoding
+        is given.  -> verdict, or None when some candidate cannot decode."""
+        seen = set()
+        for c in codecs:
+            try:
+                da = actual if isinstance(actual, str) else actual.decode(c)
+                de = expected.decode(c)
+            except UnicodeDecodeError:
+                return None
+            seen.add(TS.evaluate_texts(da, de, mo).verdict)
+        return seen.pop() if len(seen) == 1 else TS.UNSPEC
+
+    def run_names(self, case):
+        """File names x encoding keyword.  The same bytes are written under
+        every name; a comparison decodes both files with ONE codec (the one
+        given, else a guessed one - the model tries UTF-8 and ISO-8859-1 and
+        speaks only where both agree)."""
+        R = Res()
+        box = self.box
+        a, e, w = case['a'], case['e'], case['w']
+        ta, te = TA.content(a), TA.content(e)
+        ba, be = ta.encode(w), te.encode(w)
+        box.clean(box.ref, box.act, box.tmp)
+        for n in TA.ACT_NAMES:
+            box.write(os.path.join(box.act, n), ba)
+        for n in TA.REF_NAMES:
+            box.write(os.path.join(box.ref, n), be)
+        same_a = os.path.join(box.act, 'same.txt')
+        same_r = os.path.join(box.ref, 'same.txt')
+        box.write(same_a, b'a\n')
+        box.write(same_r, b'a\n')
+        encs = TA.ENCODINGS if w == 'utf-8' else ['iso-8859-1']
+        found = {}
+        tally = {}
+        verdicts = set()
+        for enc in encs:
+            codecs = [enc] if enc else ['utf-8', 'iso-8859-1']
+            ekw = {'encoding': enc} if enc else {}
+            eskw = {'encodings': [enc, None]} if enc else {}
+            for i, o in enumerate(TA.NAME_POINTS):
+                p = TA.option_point(**o)
+                kw = TA.kwargs_of(p)
+                mo = model_opts(p)
+                vf = self.codec_verdict(ba, be, codecs, mo)
+                vs = self.codec_verdict(ta, be, codecs, mo) \
+                    if enc is None else None
+                verdicts.add(vf)
+                for an in TA.ACT_NAMES:
+                    act = os.path.join(box.act, an)
+                    for rn in TA.REF_NAMES:
+                        ref = os.path.join(box.ref, rn)
+                        calls = []
+                        if vf is not None:
+                            calls.append(('assertTextFileCorrect', vf, (
+                                'assertTextFileCorrect', act, ref), ekw))
+                            calls.append(('assertTextFilesCorrect', vf, (
+                                'assertTextFilesCorrect', [act, same_a],
+                                [ref, same_r]), eskw))
+                        if vs is not None and an == TA.ACT_NAMES[0]:
+                            calls.append(('assertStringCorrect', vs, (
+                                'assertStringCorrect', ta, ref), {}))
+                        for (name, v, args, xkw) in calls:
+                            rk, info = box.call(*args, **dict(kw, **xkw))
+                            R.ev()
+                            if rk != 'pass':
+                                box.clean(box.tmp)
+                            if v == TS.UNSPEC:
+                                R.unspec += 1
+                            key = '%s|%s' % (rk, v)
+                            tally[key] = tally.get(key, 0) + 1
+                            real = rk if rk != 'error' else ('error', info)
+                            kind = self.violation_kind(real, v)
+                            if not kind:
+                                continue
+                            if kind == 'internal-error':
+                                # named after what was asked for, not after
+                                # the names (the detail has the first pair)
+                                sig = ('internal-error:%s:file-names:'
+                                       'encoding=%s:files-written-as=%s:%s'
+                                       % (type(info).__name__,
+                                          enc or 'absent', w,
+                                          TA.option_label(p)))
+                            else:
+                                same = TA.extension_class(an) == \
+                                    TA.extension_class(rn)
+                                sig = '%s:file-names:%s:encoding=%s' % (
+                                    kind, 'same-extension' if same
+                                    else 'extensions-differ',
+                                    enc or 'absent')
+                            f = found.setdefault(sig, {
+                                'entries': [], 'point': i,
+                                'actual_file': an, 'reference_file': rn,
+                                'encoding': enc, 'written_as': w,
+                                'actual_text': ta, 'reference_text': te,
+                                'options': o, 'model': v, 'tdda': rk if
+                                rk != 'error' else repr(info)[:300]})
+                            if name not in f['entries']:
+                                f['entries'].append(name)
+        for k, n in tally.items():
+            R.out(k, n)
+        R.nontrivial = any(ord(c) > 127 for c in ta + te) and \
+            bool(verdicts & set([TS.MUST_PASS, TS.MUST_FAIL]))
+        for sig in sorted(found):
+            f = found[sig]
+            kind = sig.split(':')[0]
+            R.viol(sig, self.CLAUSES[kind] if kind != 'internal-error'
+                   else 'no-internal-error', f, sub={'sig': sig})
+        box.clean(box.tmp)
         return R
 
     def run_long(self, case):
@@ -546,6 +908,16 @@ class C04(Check):
                 'assertTextFilesCorrect', [act, act2], [ref, ref2], **kw)),
             ('assertTextFilesCorrect[2]', lambda kw: box.call(
                 'assertTextFilesCorrect', [act2, act], [ref2, ref], **kw)),
+            # the documented backwards-compatible spellings: ignore_lines= is
+            # an alias of remove_lines=, assertFileCorrect / assertFilesCorrect
+            # of the text-file assertions (run where remove_lines is set)
+            ('assertStringCorrect[ignore_lines]', lambda kw: box.call(
+                'assertStringCorrect', ta, ref, **self.alias_kw(kw))),
+            ('assertFileCorrect[ignore_lines]', lambda kw: box.call(
+                'assertFileCorrect', act, ref, **self.alias_kw(kw))),
+            ('assertFilesCorrect[ignore_lines]', lambda kw: box.call(
+                'assertFilesCorrect', [act, act2], [ref, ref2],
+                **self.alias_kw(kw))),
         ]
         bad = dict((name, {}) for (name, fn) in routes)
         verdicts = set()
@@ -562,6 +934,8 @@ class C04(Check):
             verdicts.add(v)
             seen = []
             for (name, fn) in routes:
+                if name.endswith('[ignore_lines]') and not p['remove_lines']:
+                    continue
                 (rk, info) = fn(kw)
                 R.ev()
                 seen.append(rk)
@@ -569,7 +943,8 @@ class C04(Check):
                     # fresh files are cheap, truncating old ones is not
                     box.clean(box.tmp)
                 vv = v
-                if name.startswith('assertTextFilesCorrect'):
+                if name.startswith(('assertTextFilesCorrect',
+                                    'assertFilesCorrect')):
                     if same == TS.MUST_FAIL or v == TS.MUST_FAIL:
                         vv = TS.MUST_FAIL
                     elif same == TS.MUST_PASS and v == TS.MUST_PASS:
@@ -598,7 +973,7 @@ class C04(Check):
             for i in sorted(errs)[:1]:
                 rk, info = fn(TA.kwargs_of(points[i]))
                 R.viol('internal-error:%s:%s:%s'
-                       % (name.split('[')[0], type(info).__name__,
+                       % (self.where_of(name), type(info).__name__,
                           TA.option_label(points[i])),
                        'no-internal-error',
                        {'entry': name, 'actual_text': ta,
@@ -608,18 +983,30 @@ class C04(Check):
             if rest:
                 if case['fa'] == ['\n', 1] and case['fe'] == ['\n', 1]:
                     self.report(R, la, le, points, rest,
-                                name.split('[')[0])
+                                self.where_of(name))
                 else:
                     for i, kind in sorted(rest.items())[:1]:
                         R.viol('%s:file-form:%s/%s:%s' % (
                             kind, self.form_name(case['fa']),
-                            self.form_name(case['fe']), name.split('[')[0]),
+                            self.form_name(case['fe']), self.where_of(name)),
                             'file-forms',
                             {'entry': name, 'actual_text': ta,
                              'reference_text': te, 'options': points[i]},
                             sub={'point': i, 'entry': name})
         box.clean(box.tmp)
         return R
+
+    @staticmethod
+    def where_of(name):
+        """Entry point named in signatures: the [1]/[2] order of the list
+        assertion is dropped, the alias spelling is kept."""
+        return name if 'ignore_lines' in name else name.split('[')[0]
+
+    @staticmethod
+    def alias_kw(kw):
+        kw = dict(kw)
+        kw['ignore_lines'] = kw.pop('remove_lines')
+        return kw
 
     @staticmethod
     def form_name(form):
